@@ -551,6 +551,70 @@ pub fn cfgs_after_earlier_run(n: usize, apis: &[Api], with_streams: bool) -> Vec
     v
 }
 
+/// Every one of the 24 streaming methods on every irregular and wide graph, on three base
+/// schedules without deviation: a regression confined to one method variant must not be able to
+/// hide behind graph size.
+pub fn all_methods_spaces(tier: &str, futures: bool, streams: bool) -> Vec<Space> {
+    let mut specs = irregular_specs(tier);
+    let ks: &[usize] = if tier == "thorough" { &[9, 17, 33, 65, 129] } else { &[9, 33] };
+    for &k in ks {
+        for f in [Family::Antichain, Family::FanIn, Family::FanOut, Family::Chain, Family::Bipartite] {
+            specs.push(family_spec(f, if f == Family::Bipartite { k.min(17) } else { k }));
+        }
+    }
+    let count = specs.len();
+    vec![space(
+        &format!("all 20 future methods x order x limit{{None,2}} and all 4 stream methods on {count} irregular / wide graphs, base schedules eager, antichain, batch, no deviation"),
+        specs,
+        Some(0),
+        move |s: &Spec| {
+            let a = max_antichain(s.n, &s.user_edges());
+            let mut c = vec![];
+            if futures {
+                for api in Api::all() {
+                    for base in [Base::Eager, Base::Avoid, Base::Batch] {
+                        let revs: &[bool] = if api.with { &REVS } else { &FWD };
+                        let lims: &[Option<usize>] = if api.concurrent() { &[None, Some(2)] } else { &LIM_NONE };
+                        if !api.concurrent() && base != Base::Eager {
+                            continue;
+                        }
+                        for &rev in revs {
+                            for &limit in lims {
+                                let mut r = RunCfg::plain(api, s.n);
+                                r.base = base;
+                                r.rev = rev;
+                                r.limit = limit;
+                                r.imm_choice = false;
+                                if base == Base::Avoid {
+                                    r.avoid = a.clone();
+                                }
+                                c.push(JobCfg::S(r));
+                            }
+                        }
+                    }
+                }
+            }
+            if streams {
+                for api in SApi::all() {
+                    for base in [CBase::Eager, CBase::Avoid, CBase::HoldThenDropAll] {
+                        let revs: &[bool] = if api.takes_opts() { &REVS } else { &FWD };
+                        for &rev in revs {
+                            let mut cc = CCfg::plain(api);
+                            cc.base = base;
+                            cc.rev = rev;
+                            if base == CBase::Avoid {
+                                cc.avoid = a.clone();
+                            }
+                            c.push(JobCfg::C(cc));
+                        }
+                    }
+                }
+            }
+            c
+        },
+    )]
+}
+
 pub fn conc_with() -> Vec<Api> {
     Api::all_with().into_iter().filter(|a| a.concurrent()).collect()
 }
@@ -703,6 +767,7 @@ pub fn c02(tier: &str) -> (Vec<Space>, Focus) {
     v.extend(mid_spaces(tier, true, true, None));
     v.extend(antichain_spaces(tier, AntiOpts { futures: true, streams: true, limits: vec![None, Some(2)], limit_below_width: false, fail_antichain: false }));
     v.extend(large_irregular_spaces(tier, true, true, false));
+    v.extend(all_methods_spaces(tier, true, true));
     v.extend(n5_space(tier, &[]));
     let focus = Focus {
         props: vec![2],
@@ -784,6 +849,7 @@ pub fn c03(tier: &str) -> (Vec<Space>, Focus) {
     v.extend(mid_spaces(tier, true, true, None));
     v.extend(antichain_spaces(tier, AntiOpts { futures: true, streams: true, limits: vec![None, Some(1), Some(2)], limit_below_width: false, fail_antichain: false }));
     v.extend(large_irregular_spaces(tier, true, true, false));
+    v.extend(all_methods_spaces(tier, true, true));
     v.extend(n5_space(tier, &[]));
     let focus = Focus {
         props: vec![3],
@@ -840,6 +906,7 @@ pub fn c04(tier: &str) -> (Vec<Space>, Focus) {
     v.extend(mid_spaces(tier, true, false, None));
     v.extend(antichain_spaces(tier, AntiOpts { futures: true, streams: false, limits: vec![None, Some(1), Some(2)], limit_below_width: true, fail_antichain: true }));
     v.extend(large_irregular_spaces(tier, true, false, false));
+    v.extend(all_methods_spaces(tier, true, false));
     v.extend(n5_space(tier, &[Some(1)]));
     let focus = Focus {
         props: vec![4],
@@ -862,6 +929,7 @@ pub fn c09(tier: &str) -> (Vec<Space>, Focus) {
     v.extend(wide_spaces(tier, false, true));
     v.extend(antichain_spaces(tier, AntiOpts { futures: true, streams: false, limits: vec![None, Some(2)], limit_below_width: false, fail_antichain: true }));
     v.extend(wide_interrupt_spaces(tier, false));
+    v.extend(all_methods_spaces(tier, true, false));
     v.extend(n5_space(tier, &[]));
     let focus = Focus {
         props: vec![9],
@@ -926,6 +994,7 @@ pub fn c05(tier: &str) -> (Vec<Space>, Focus) {
     v.push(space("StreamOpts builder methods called in every order, shapes 1<=n<=3", shapes_upto(1, 3, false), None, |s| {
         cfgs_opts_orders(s.n, &[], &[None], true)
     }));
+    v.extend(all_methods_spaces(tier, false, true));
     let focus = Focus {
         props: vec![5],
         nontrivial_s: |_, _| false,
@@ -977,6 +1046,7 @@ pub fn c06(tier: &str) -> (Vec<Space>, Focus) {
     v.push(space("StreamOpts builder methods called in every order, shapes 1<=n<=3", shapes_upto(1, 3, false), None, |s| {
         cfgs_opts_orders(s.n, &conc_with(), &[None], true)
     }));
+    v.extend(all_methods_spaces(tier, true, true));
     v.extend(n5_space(tier, &[]));
     let focus = Focus {
         props: vec![6],
@@ -1151,6 +1221,7 @@ pub fn c10(tier: &str) -> (Vec<Space>, Focus) {
     }));
     v.extend(mid_spaces(tier, true, false, Some(2)));
     v.extend(antichain_spaces(tier, AntiOpts { futures: true, streams: false, limits: vec![Some(1), Some(2), Some(3), Some(5)], limit_below_width: true, fail_antichain: false }));
+    v.extend(all_methods_spaces(tier, true, false));
     v.extend(n5_space(tier, &[Some(1), Some(2), Some(3)]));
     let focus = Focus {
         props: vec![10],
